@@ -225,7 +225,9 @@ func compare(d *domain, c Cfg, o *observation, exp expObs, lostBudget map[string
 				}
 			}
 			if all {
-				cls = "disabled-iface-runs"
+				// an entry with disable = true is treated like any other entry
+				return &failure{Msg: fmt.Sprintf("running captures %v, specification %v: interfaces disabled by the configuration %v run", o.Running, want, c),
+					Desc: map[string]any{"cls": "disable-not-honoured", "symptom": "disabled-iface-runs"}}
 			}
 		}
 		return &failure{Msg: fmt.Sprintf("running captures %v, specification %v (configuration %v)", o.Running, want, c),
@@ -303,17 +305,18 @@ func doUpdate(d *domain, w *world, c Cfg, win []string, before []string) (f *fai
 	err, panicked, hung, sent := w.update(c, target)
 	switch {
 	case panicked != "":
-		when := "other"
+		desc := map[string]any{"cls": "update-panics"}
 		for _, i := range before {
 			if disabledBy(d, c, i) {
-				when = "running-iface-becomes-disabled"
+				// a running interface becomes disabled: the disabled entry (no ring buffer) reaches the diff
+				desc = map[string]any{"cls": "disable-not-honoured", "symptom": "update-panics"}
 			}
 		}
 		if len(panicked) > 1200 {
 			panicked = panicked[:1200]
 		}
-		return &failure{Msg: fmt.Sprintf("Manager.Update(%v) panicked with captures %v running: %s", c, before, panicked),
-			Desc: map[string]any{"cls": "update-panics", "when": when}}, nil, ""
+		return &failure{Msg: fmt.Sprintf("Manager.Update(%v) panicked with captures %v running (the manager stays locked): %s", c, before, panicked),
+			Desc: desc}, nil, ""
 	case hung:
 		return &failure{Msg: fmt.Sprintf("Manager.Update(%v) did not return", c), Desc: map[string]any{"cls": "update-hangs"}}, nil, ""
 	case err != nil:
@@ -670,11 +673,10 @@ func driveOne(d *domain, pool []Cfg, hist []int, h, m int) ([]event, string) {
 			}
 			evs = append(evs, event{Ev: "Packets", Hist: h, Mgr: m, S: emptyIfNil(before), Win: []string{}, Running: []runEntry{}})
 		}
-		// window packets on every second update of a history
+		// no traffic inside the stop window here (rc-replay covers it): a manager that loses packets
+		// leaves the model and the rest of its events - the choices they show - would be skipped
 		var win []string
-		if (k+h)%2 == 0 {
-			win = d.Links
-		}
+		_ = k
 		c := pool[ci]
 		f, _, mach := doUpdate(d, w, c, win, before)
 		if mach != "" {
